@@ -51,10 +51,17 @@ ENGINES = {
     "dlsim": dict(src=["sim/dlsim/dlsim.cpp"], nitro_src=["src/env/get.cpp"],
                   ld=["-Wl,--wrap=dlopen,--wrap=dlsym,--wrap=dlclose,--wrap=dlerror"],
                   variants=[("", [])], probes=[]),
-    "logsim": dict(src=["sim/logsim/logsim.cpp"], nitro_src=[], opt="-O0",
-                   ld=["-Wl,--wrap=pthread_mutex_lock,--wrap=pthread_mutex_unlock,--wrap=pthread_mutex_trylock"],
+    "logsim": dict(src=["sim/logsim/logsim.cpp"], nitro_src=[], opt="-O0", recycle=300,
+                   ld=["-Wl,--wrap=pthread_mutex_lock,--wrap=pthread_mutex_unlock,--wrap=pthread_mutex_trylock,"
+                       "--wrap=pthread_mutex_timedlock,--wrap=pthread_mutex_clocklock,"
+                       "--wrap=pthread_rwlock_rdlock,--wrap=pthread_rwlock_wrlock,--wrap=pthread_rwlock_tryrdlock,"
+                       "--wrap=pthread_rwlock_trywrlock,--wrap=pthread_rwlock_unlock,"
+                       "--wrap=pthread_spin_lock,--wrap=pthread_spin_trylock,--wrap=pthread_spin_unlock,--wrap=sched_yield"],
                    variants=[(s, ["-DNITRO_LOG_MIN_SEVERITY=" + s, "-DLOGSIM_MIN=%d" % i])
-                             for i, s in enumerate(SEVS)], probes=[]),
+                             for i, s in enumerate(SEVS)],
+                   probes=[("LS_HAVE_CALLABLE_LIT", "sim/logsim/probe_callable_lit.cpp"),
+                           ("LS_HAVE_CALLABLE_FN", "sim/logsim/probe_callable_fn.cpp"),
+                           ("LS_HAVE_CALLABLE_OBJ", "sim/logsim/probe_callable_obj.cpp")]),
 }
 
 # runs per tier are fixed counts (the explored seed set must not depend on machine load)
@@ -107,20 +114,43 @@ def run_cmd(cmd, **kw):
     return subprocess.run(cmd, stdout=subprocess.PIPE, stderr=subprocess.PIPE, text=True, **kw)
 
 
+def prune(parent, keep, protect):
+    """Keep the `keep` most recently used build directories under parent (several check.py
+    processes may share /verif/build: nothing another process might be using is removed)."""
+    try:
+        entries = [os.path.join(parent, x) for x in os.listdir(parent)]
+    except OSError:
+        return
+    now = time.time()
+    dirs = [x for x in entries if os.path.isdir(x) and x != protect]
+    # unfinished temporary directories of dead builds
+    for x in dirs:
+        if ".tmp" in os.path.basename(x) and now - os.path.getmtime(x) > 3600:
+            shutil.rmtree(x, ignore_errors=True)
+    done = sorted([x for x in dirs if ".tmp" not in os.path.basename(x)], key=os.path.getmtime, reverse=True)
+    for x in done[keep - 1:]:
+        if now - os.path.getmtime(x) > 600:
+            shutil.rmtree(x, ignore_errors=True)
+
+
 def build_core():
+    """Compiles sim_main.cpp once per content hash; returns (object path, error text or None)."""
     srcs = [os.path.join(VERIF, "sim/core/sim_main.cpp"), os.path.join(VERIF, "sim/core/sim.hpp")]
     key = sha_files(srcs) + hashlib.sha256(" ".join(CXXFLAGS).encode()).hexdigest()[:6]
     d = os.path.join(BUILD, "core", key)
     obj = os.path.join(d, "sim_main.o")
     if os.path.exists(obj):
+        os.utime(d, None)
         return obj, None
     os.makedirs(d, exist_ok=True)
-    for old in glob.glob(os.path.join(BUILD, "core", "*")):
-        if old != d:
-            shutil.rmtree(old, ignore_errors=True)
-    cmd = [CXX] + CXXFLAGS + ["-O1", "-c", srcs[0], "-o", obj + ".tmp.o"]
-    p = subprocess.Popen(cmd, stdout=subprocess.PIPE, stderr=subprocess.STDOUT, text=True)
-    return obj, p
+    tmp = os.path.join(d, "sim_main.%d.tmp.o" % os.getpid())
+    cmd = [CXX] + CXXFLAGS + ["-O1", "-c", srcs[0], "-o", tmp]
+    r = run_cmd(cmd)
+    if r.returncode != 0:
+        return None, r.stdout + r.stderr
+    os.replace(tmp, obj)
+    prune(os.path.join(BUILD, "core"), 3, d)
+    return obj, None
 
 
 def build_engine(engine):
@@ -132,18 +162,31 @@ def build_engine(engine):
               [os.path.join(VERIF, "sim/core/sim.hpp"), os.path.join(VERIF, "sim/core/sim_main.cpp"),
                os.path.abspath(__file__)]
     key = sha_files(repo_sources() + harness)
-    d = os.path.join(BUILD, engine, key)
-    stamp = os.path.join(d, "built.json")
-    if os.path.exists(stamp):
+    final = os.path.join(BUILD, engine, key)
+    stamp = os.path.join(final, "built.json")
+
+    def load():
         with open(stamp) as f:
             st = json.load(f)
-        if all(os.path.exists(b) for _, b in st["bins"]):
-            return [tuple(x) for x in st["bins"]], st["probes"]
+        bins = [(v, os.path.join(final, b)) for v, b in st["bins"]]
+        if all(os.path.exists(b) for _, b in bins):
+            os.utime(final, None)
+            return bins, st["probes"]
+        return None
+
+    if os.path.exists(stamp):
+        got = load()
+        if got:
+            return got
     t0 = time.time()
-    for old in glob.glob(os.path.join(BUILD, engine, "*")):
-        shutil.rmtree(old, ignore_errors=True)
-    os.makedirs(d, exist_ok=True)
-    core_obj, core_proc = build_core()
+    os.makedirs(os.path.join(BUILD, engine), exist_ok=True)
+    d = final + ".tmp%d" % os.getpid()
+    shutil.rmtree(d, ignore_errors=True)
+    os.makedirs(d)
+    # the core object is compiled concurrently with the engine's translation units
+    core_result = {}
+    core_thread = threading.Thread(target=lambda: core_result.update(zip(("obj", "err"), build_core())))
+    core_thread.start()
     # op-availability probes: tiny translation units that may legitimately not compile
     probes = {}
     probe_procs = []
@@ -174,28 +217,38 @@ def build_engine(engine):
         out, _ = p.communicate()
         if p.returncode != 0:
             failed.append((name, out))
-    if core_proc is not None:
-        out, _ = core_proc.communicate()
-        if core_proc.returncode != 0:
-            failed.append(("core", out))
-        else:
-            os.replace(core_obj + ".tmp.o", core_obj)
+    core_thread.join()
+    if core_result.get("obj") is None:
+        failed.append(("core", core_result.get("err") or ""))
     if failed:
         for name, out in failed:
             sys.stderr.write("BUILD FAILED: %s\n%s\n" % (name, out[-6000:]))
+        shutil.rmtree(d, ignore_errors=True)
         return None, probes
-    bins = []
+    names = []
     for vname, objs in var_objs:
-        b = os.path.join(d, engine + ("_" + vname if vname else ""))
-        cmd = [CXX] + objs + nitro_objs + [core_obj] + LDFLAGS + spec["ld"] + ["-o", b]
+        bname = engine + ("_" + vname if vname else "")
+        cmd = [CXX] + objs + nitro_objs + [core_result["obj"]] + LDFLAGS + spec["ld"] + ["-o", os.path.join(d, bname)]
         r = run_cmd(cmd)
         if r.returncode != 0:
-            sys.stderr.write("LINK FAILED: %s\n%s\n" % (b, r.stderr[-4000:]))
+            sys.stderr.write("LINK FAILED: %s\n%s\n" % (bname, r.stderr[-4000:]))
+            shutil.rmtree(d, ignore_errors=True)
             return None, probes
-        bins.append((vname, b))
-    with open(stamp, "w") as f:
-        json.dump({"bins": bins, "probes": probes, "build_s": round(time.time() - t0, 1)}, f)
-    return bins, probes
+        names.append((vname, bname))
+    for f in os.listdir(d):
+        if f.endswith(".o"):
+            os.unlink(os.path.join(d, f))
+    with open(os.path.join(d, "built.json"), "w") as f:
+        json.dump({"bins": names, "probes": probes, "build_s": round(time.time() - t0, 1)}, f)
+    try:
+        os.rename(d, final)            # atomic publication
+    except OSError:
+        shutil.rmtree(d, ignore_errors=True)   # somebody else published the same build first
+    prune(os.path.join(BUILD, engine), 3, final)
+    got = load()
+    if got:
+        return got
+    return None, probes
 
 
 def _words(text, maxw):
@@ -246,6 +299,7 @@ def match_known(known, prop, cls, sig):
 
 
 VIOL_RE = re.compile(r'^VIOL prop=(\S+) class=(\S+) sig="((?:[^"\\]|\\.)*)" ops=(\d+) execs=(\d+) replay=(\S+) run=(-?\d+)')
+NONDET_RE = re.compile(r'^NONDET run=(\d+) from=(\d+) class=(\S+) sig="((?:[^"\\]|\\.)*)" plan=(\S+)')
 AGAIN_RE = re.compile(r'^VIOL-AGAIN class=(\S+) sig="((?:[^"\\]|\\.)*)"')
 
 
@@ -264,6 +318,7 @@ class Batch:
         self.deaths = 0
         self.abandoned = []
         self.hashfiles = []
+        self.nondet = []
         self.outdir = os.path.join(os.environ.get("VERIF_REPLAY_DIR", os.path.join(VERIF, "replays")), prop)
         self.scratch = os.path.join(BUILD, "scratch", prop + "-" + tier)
         self.deadline = 0
@@ -281,6 +336,14 @@ class Batch:
                     v["ops"] = ops
 
     def worker(self, binary, wid, a, b, extra):
+        chunk = ENGINES[self.engine].get("recycle")
+        if chunk:
+            for c in range(a, b, chunk):
+                self.worker_chunk(binary, wid, c, min(b, c + chunk), extra)
+        else:
+            self.worker_chunk(binary, wid, a, b, extra)
+
+    def worker_chunk(self, binary, wid, a, b, extra):
         cur = a
         restarts = 0
         while cur < b:
@@ -316,6 +379,14 @@ class Batch:
                         self.harness_errors.append("bad STATS: %s" % e)
                 elif line.startswith("HARNESS-NONDETERMINISM"):
                     self.harness_errors.append(line)
+                elif line.startswith("NONDET "):
+                    m = NONDET_RE.match(line)
+                    if m:
+                        with self.lock:
+                            self.nondet.append(dict(binary=binary, run=int(m.group(1)), start=int(m.group(2)), cls=m.group(3),
+                                                    sig=m.group(4), plan=m.group(5), extra=extra))
+                    else:
+                        self.harness_errors.append("unparsable: " + line)
                 elif line.startswith("DONE "):
                     done = True
             rc = p.wait()
@@ -380,9 +451,61 @@ class Batch:
             self.harness_errors.append("crash minimisation produced nothing for run %d: %s" % (run, r2.stdout[-300:] + r2.stderr[-300:]))
 
 
+def resolve_nondet(batch):
+    """A violation whose in-process re-execution differed.  Settle it in fresh processes: first the
+    plan alone (forked children, clean state each), then the range of runs that preceded it."""
+    done = set()
+    for nd in batch.nondet:
+        key = (nd["cls"], nd["sig"])
+        if key in done or (key in batch.viol and batch.viol[key]["replay"]):
+            continue
+        out = os.path.join(batch.outdir, "%s-fresh-s%dr%d.replay" % (re.sub(r"[^A-Za-z0-9_\-]", "_", nd["cls"].split("/", 1)[1]), batch.seed, nd["run"]))
+        r = run_cmd([nd["binary"], "--prop", batch.prop, "--tier", batch.tier, "--minimise-crash", nd["plan"], "--out", out], timeout=900)
+        got = None
+        for line in r.stdout.splitlines():
+            m = VIOL_RE.match(line)
+            if m:
+                got = m
+        if got and got.group(2) == nd["cls"]:
+            batch.add_viol(got.group(2), got.group(3), got.group(6), int(got.group(4)))
+            done.add(key)
+            continue
+        # the plan alone is clean in a fresh process: try the run range of that worker chunk
+        def range_hits(a):
+            rf = os.path.join(batch.scratch, "range_%d_%d.replay" % (a, nd["run"]))
+            with open(rf, "w") as f:
+                vname = os.path.basename(nd["binary"]).split("_")[-1]
+                knob = "knob min=%d\n" % SEVS.index(vname) if vname in SEVS else ""
+                f.write("nitro-verif-replay 1\nengine %s property %s seed %d run %d tier %s\n%srange from=%d to=%d\nexpect class=%s at_op=-1 sig=\"%s\" detail=\"\"\n"
+                        % (batch.engine, batch.prop, batch.seed, nd["run"], batch.tier, knob, a, nd["run"], nd["cls"], nd["sig"]))
+            rr = run_cmd([nd["binary"], "--replay", rf, "--prop", batch.prop] + nd["extra"], timeout=900)
+            return rr.returncode == 1, rf
+        ok1, _ = range_hits(nd["start"])
+        ok2, _ = range_hits(nd["start"])
+        if not (ok1 and ok2):
+            batch.harness_errors.append("HARNESS-NONDETERMINISM: run %d class %s reproduces neither from its plan nor from the run range %d..%d in fresh processes"
+                                        % (nd["run"], nd["cls"], nd["start"], nd["run"]))
+            done.add(key)
+            continue
+        lo, hi = nd["start"], nd["run"]   # latest start that still reproduces
+        while lo < hi:
+            mid = (lo + hi + 1) // 2
+            if range_hits(mid)[0]:
+                lo = mid
+            else:
+                hi = mid - 1
+        _, rf = range_hits(lo)
+        final = os.path.join(batch.outdir, "%s-range-s%dr%d.replay" % (re.sub(r"[^A-Za-z0-9_\-]", "_", nd["cls"].split("/", 1)[1]), batch.seed, nd["run"]))
+        shutil.copy(rf, final)
+        batch.add_viol(nd["cls"], nd["sig"], final, nd["run"] - lo + 1)
+        done.add(key)
+
+
 def gate_replay(binary, prop, replay, want_cls, want_sig):
     """Fresh-process replay; True iff the same violation class is observed again."""
-    r = run_cmd([binary, "--replay", replay, "--prop", prop], timeout=180)
+    r = run_cmd([binary, "--replay", replay, "--prop", prop], timeout=900)
+    if "RANGE-DONE" in r.stdout:
+        return r.returncode == 1 and "RANGE-DONE hit=1" in r.stdout, r
     if r.returncode == 1:
         m = re.search(r'REPLAY violation class=(\S+) at_op=(-?\d+) sig="((?:[^"\\]|\\.)*)"', r.stdout)
         return bool(m) and m.group(1) == want_cls and (want_sig == "crash" or m.group(3) == want_sig), r
@@ -434,6 +557,7 @@ def run_check(prop, tier, seed):
         threads.append(th)
     for th in threads:
         th.join()
+    resolve_nondet(batch)
     t_search = time.time()
 
     # ---- merge counters
@@ -468,6 +592,12 @@ def run_check(prop, tier, seed):
     for (cls, sig), v in sorted(batch.viol.items()):
         if v["replay"] is None:
             batch.harness_errors.append("violation class %s sig %s was counted but never minimised" % (cls, sig))
+            continue
+        if engine == "logsim" and cls.endswith("/hang"):
+            # no scheduler step for 30 s: the code blocks or spins on something the simulator does not
+            # intercept (e.g. a busy-wait on an atomic without yielding).  The simulation cannot tell a
+            # livelock from its own blind spot, so this is reported as inconclusive, never as a verdict.
+            batch.harness_errors.append("inconclusive: run blocks or spins outside the simulator's seams (watchdog), replay=%s" % v["replay"])
             continue
         text = open(v["replay"]).read()
         ok, r = gate_replay(pick_binary(bins, text), prop, v["replay"], cls, sig)
